@@ -303,7 +303,10 @@ func c09Matrix(c *Ctx, stream string) {
 			for _, st := range settings {
 				for i, n := range names {
 					k++
-					if !pick(k/7) || (!full && k%7 != 0 && !(n == "tree" || n == "dot" || n == "callgrind")) {
+					if full && k%2 != int(c.Seed%2) {
+						continue // thorough: half of the command lines, alternating with the seed
+					}
+					if !pick(k/7) || (!full && k%14 != 0 && !((n == "tree" || n == "dot" || n == "callgrind") && (k/7)%2 == int(c.Seed%2))) {
 						continue
 					}
 					arg := "-" + n
